@@ -13,7 +13,7 @@ import (
 func init() {
 	register(&Spec{ID: "C14", Title: "Transport failure yields a clean prefix and then an error", Run: runC14,
 		Meta: core.Meta{
-			Explanation: "R14.15: tds.ErrEOFAfterZeroRead, ErrNotEnoughBytes, ErrChannelClosed and ErrNoPackageReady are initialised with errors.New — Conn.ReadFrom and tryParsePackage tell the conditions apart with errors.Is, and a sentinel that wraps io.EOF is taken for an orderly end with a complete packet. Decides that the error path from the transport to the consumer is unbroken and that only completely received packets are parsed. R14.1: every transport read (io.Reader.Read / io.ReadFull on the connection) in PacketHeader.ReadFrom and Packet.ReadFrom has its error tested at once and every failure return carries the read error (%w), the error itself or ErrEOFAfterZeroRead — never nil. R14.2: a nil-error return of Packet.ReadFrom is dominated by totalBytes == Header.Length, a nil-error return of PacketHeader.ReadFrom by the full-header read succeeding; every return of Packet.ReadFrom whose error may satisfy errors.Is(err, io.EOF) (which Conn.ReadFrom treats as an orderly end and still parses the packet) lies only on paths where the body is complete or the error is not EOF. R14.3: every CFG cycle that contains a transport read tests a context's Err() with an exit, and every way back to the loop head after a failed read passes a context Err() test (bounded partial-body wait). R14.4: in Conn.ReadFrom every path to WritePacket(packet) has err == nil or errors.Is(err, io.EOF), and conversely every path with err == nil or EOF reaches WritePacket (or reports an unknown channel on Conn.errCh) before it loops or returns; the complementary path sends an error wrapping err on Conn.errCh; the loop ends after an EOF. R14.5: NextPackage receives from Conn.errCh in its blocking select and returns a non-nil error wrapping the received value. R14.6: in NextPackage every path to the blocking select (which offers the error queues) first passes the non-blocking receive from packageCh: packages parsed from completely received packets are delivered before the transport error that followed them. R14.9: in Packet.ReadFrom every context whose Err() decides whether an EOF-like read ends the wait is, on every path, the result of context.WithTimeout(ctx, timeout) with the function's timeout parameter — a wait that is only armed by the first body byte never ends when the peer dies between header and body. R14.10: PacketHeader.ReadFrom, Packet.ReadFrom and Conn.ReadFrom never compare an error with io.EOF by == / != — transports and the readers' own %w wrapping hand on EOFs that only errors.Is recognises, and a missed EOF is either reported instead of the complete packet it came with or (zero-byte EOF) never turned into ErrEOFAfterZeroRead, so the reader ends without queueing an error. R14.11 = R03.2 (the synthetic final DONE is emitted only when the queue is at end of MESSAGE — IsEOM, not merely `all packets consumed` — so a transport that dies on a packet boundary yields an error, not a final DONE). R14.12: in sendPackets the error edge of every sendPacket call reaches a return of a non-nil error without going round the loop again (a `break` that only leaves the select lets the next packet overwrite the error and the message goes out with a hole). R14.13 = R11.5 (every error return of NextPackageUntil returns the error it received, fmt.Errorf(...%w, err), or the EEDError whose WrappedError was set to that error). R14.8: Conn.errCh and Channel.errCh are sent to only on the reader goroutine's path (functions statically reachable from (*Conn).ReadFrom); a consumer-side function (e.g. a failed request write in sendPacket) that also sends there blocks its caller — without looking at the caller's context — as soon as the bounded queue is full, which on a dead transport it is. R14.7: every return of the reader goroutine is under `connection context done` or `errors.Is(err, io.EOF)`; a reader that gives up on other errors stops refilling Conn.errCh and only the first waiter learns that the transport died.",
+			Explanation: "R14.16 = R03.6 (NextPackage looks at the package queue before it can fail on a context: packages from completely received packets are delivered before the error). R14.15: tds.ErrEOFAfterZeroRead, ErrNotEnoughBytes, ErrChannelClosed and ErrNoPackageReady are initialised with errors.New — Conn.ReadFrom and tryParsePackage tell the conditions apart with errors.Is, and a sentinel that wraps io.EOF is taken for an orderly end with a complete packet. Decides that the error path from the transport to the consumer is unbroken and that only completely received packets are parsed. R14.1: every transport read (io.Reader.Read / io.ReadFull on the connection) in PacketHeader.ReadFrom and Packet.ReadFrom has its error tested at once and every failure return carries the read error (%w), the error itself or ErrEOFAfterZeroRead — never nil. R14.2: a nil-error return of Packet.ReadFrom is dominated by totalBytes == Header.Length, a nil-error return of PacketHeader.ReadFrom by the full-header read succeeding; every return of Packet.ReadFrom whose error may satisfy errors.Is(err, io.EOF) (which Conn.ReadFrom treats as an orderly end and still parses the packet) lies only on paths where the body is complete or the error is not EOF. R14.3: every CFG cycle that contains a transport read tests a context's Err() with an exit, and every way back to the loop head after a failed read passes a context Err() test (bounded partial-body wait). R14.4: in Conn.ReadFrom every path to WritePacket(packet) has err == nil or errors.Is(err, io.EOF), and conversely every path with err == nil or EOF reaches WritePacket (or reports an unknown channel on Conn.errCh) before it loops or returns; the complementary path sends an error wrapping err on Conn.errCh; the loop ends after an EOF. R14.5: NextPackage receives from Conn.errCh in its blocking select and returns a non-nil error wrapping the received value. R14.6: in NextPackage every path to the blocking select (which offers the error queues) first passes the non-blocking receive from packageCh: packages parsed from completely received packets are delivered before the transport error that followed them. R14.9: in Packet.ReadFrom every context whose Err() decides whether an EOF-like read ends the wait is, on every path, the result of context.WithTimeout(ctx, timeout) with the function's timeout parameter — a wait that is only armed by the first body byte never ends when the peer dies between header and body. R14.10: PacketHeader.ReadFrom, Packet.ReadFrom and Conn.ReadFrom never compare an error with io.EOF by == / != — transports and the readers' own %w wrapping hand on EOFs that only errors.Is recognises, and a missed EOF is either reported instead of the complete packet it came with or (zero-byte EOF) never turned into ErrEOFAfterZeroRead, so the reader ends without queueing an error. R14.11 = R03.2 (the synthetic final DONE is emitted only when the queue is at end of MESSAGE — IsEOM, not merely `all packets consumed` — so a transport that dies on a packet boundary yields an error, not a final DONE). R14.12: in sendPackets the error edge of every sendPacket call reaches a return of a non-nil error without going round the loop again (a `break` that only leaves the select lets the next packet overwrite the error and the message goes out with a hole). R14.13 = R11.5 (every error return of NextPackageUntil returns the error it received, fmt.Errorf(...%w, err), or the EEDError whose WrappedError was set to that error). R14.8: Conn.errCh and Channel.errCh are sent to only on the reader goroutine's path (functions statically reachable from (*Conn).ReadFrom); a consumer-side function (e.g. a failed request write in sendPacket) that also sends there blocks its caller — without looking at the caller's context — as soon as the bounded queue is full, which on a dead transport it is. R14.7: every return of the reader goroutine is under `connection context done` or `errors.Is(err, io.EOF)`; a reader that gives up on other errors stops refilling Conn.errCh and only the first waiter learns that the transport died.",
 			NotDecided:  "Which prefix of packages is delivered, the spurious-DONE clause and elapsed time are not decided (crash points are not enumerated).",
 			Assumptions: []string{"io.ReadFull returns err == nil only when the buffer was filled (standard library contract)"},
 		}})
@@ -53,6 +53,8 @@ func runC14(r *core.Run) {
 	defer c11Until(r, "R14.13")
 	r.Rule("R14.15", "the distinguished error conditions are plain sentinels (errors.New): none of them wraps io.EOF or another error", 4, false)
 	defer sentinelsArePlain(r, "R14.15", "ErrEOFAfterZeroRead", "ErrNotEnoughBytes", "ErrChannelClosed", "ErrNoPackageReady")
+	r.Rule("R14.16", "an already queued package is handed out before any context is consulted (R03.6): prefix, then error", 1, false)
+	defer c03QueuedFirst(r, "R14.16")
 
 	eofZero := p.Global("tds", "ErrEOFAfterZeroRead")
 	isEOFZero := func(v ssa.Value) bool {
@@ -77,7 +79,7 @@ func runC14(r *core.Run) {
 				r.Bad("R14.1", key, c.Pos(), "the error of a transport read is discarded")
 				continue
 			}
-			c14ReadSite(r, fn, c, e, key, isEOFZero)
+			c14ReadSite(r, "R14.1", fn, c, e, key, isEOFZero)
 			c14Loop(r, fn, c, e, key)
 		}
 	}
@@ -90,7 +92,7 @@ func runC14(r *core.Run) {
 	c14ReaderExits(r)
 }
 
-func c14ReadSite(r *core.Run, fn *ssa.Function, c ssa.CallInstruction, e ssa.Value, key string, isEOFZero func(ssa.Value) bool) {
+func c14ReadSite(r *core.Run, rule string, fn *ssa.Function, c ssa.CallInstruction, e ssa.Value, key string, isEOFZero func(ssa.Value) bool) {
 	// the error must be tested (err != nil) in the same block, before anything else reads
 	var test *ssa.BinOp
 	tail := false
@@ -108,11 +110,11 @@ func c14ReadSite(r *core.Run, fn *ssa.Function, c ssa.CallInstruction, e ssa.Val
 		}
 	}
 	if test == nil && tail {
-		r.OK("R14.1", key, c.Pos(), "read error returned as is")
+		r.OK(rule, key, c.Pos(), "read error returned as is")
 		return
 	}
 	if test == nil {
-		r.Bad("R14.1", key, c.Pos(), "the error of the transport read is not tested against nil right after the read")
+		r.Bad(rule, key, c.Pos(), "the error of the transport read is not tested against nil right after the read")
 		return
 	}
 	var iff *ssa.If
@@ -123,7 +125,7 @@ func c14ReadSite(r *core.Run, fn *ssa.Function, c ssa.CallInstruction, e ssa.Val
 	}
 	if iff == nil {
 		// e.g. `err != nil || n != 8`
-		r.Unknown("R14.1", key, test.Pos(), "nil test of the transport error is not a direct branch condition")
+		r.Unknown(rule, key, test.Pos(), "nil test of the transport error is not a direct branch condition")
 		return
 	}
 	// every path from the read to the next transport read or to a return passes the test
@@ -148,7 +150,7 @@ func c14ReadSite(r *core.Run, fn *ssa.Function, c ssa.CallInstruction, e ssa.Val
 		}
 	})
 	if skipped {
-		r.Bad("R14.1", key, c.Pos(), "a path from the transport read reaches a return or the next read without testing the read error")
+		r.Bad(rule, key, c.Pos(), "a path from the transport read reaches a return or the next read without testing the read error")
 		return
 	}
 	_, trueNonNil, _ := core.ErrNilTest(test)
@@ -197,11 +199,11 @@ func c14ReadSite(r *core.Run, fn *ssa.Function, c ssa.CallInstruction, e ssa.Val
 		bad, badPos = "failure return carries "+core.Expr(ev)+", not the transport error", ret.Pos()
 	})
 	if bad != "" {
-		r.Bad("R14.1", key, c.Pos(), bad, "offending return at "+r.Prog.Pos(badPos))
+		r.Bad(rule, key, c.Pos(), bad, "offending return at "+r.Prog.Pos(badPos))
 	} else if nret == 0 {
-		r.Bad("R14.1", key, c.Pos(), "no return on the failure side of the transport read")
+		r.Bad(rule, key, c.Pos(), "no return on the failure side of the transport read")
 	} else {
-		r.OK("R14.1", key, c.Pos(), "tested at once; all failure returns carry the transport error or ErrEOFAfterZeroRead")
+		r.OK(rule, key, c.Pos(), "tested at once; all failure returns carry the transport error or ErrEOFAfterZeroRead")
 	}
 }
 
@@ -1133,4 +1135,31 @@ func restSliceAdvanced(ph *ssa.Phi, readCount ssa.Value, dataF *types.Var) (bool
 		return true, ""
 	}
 	return false, why
+}
+
+// c14ReadSites: R14.1 for every transport read of package tds, under the rule name of another property.
+func c14ReadSites(r *core.Run, rule string) {
+	p := r.Prog
+	eofZero := p.Global("tds", "ErrEOFAfterZeroRead")
+	isEOFZero := func(v ssa.Value) bool {
+		u, ok := v.(*ssa.UnOp)
+		return ok && u.Op == token.MUL && u.X == ssa.Value(eofZero)
+	}
+	for _, fn := range p.ModuleFuncs() {
+		if fn.Pkg == nil || fn.Pkg.Pkg.Path() != core.Module+"/tds" {
+			continue
+		}
+		for _, c := range core.Calls(fn) {
+			if !isReaderRead(c) {
+				continue
+			}
+			key := core.FuncName(fn) + " -> " + calleeKey(c)
+			e, has := errResult(c)
+			if !has || e == nil {
+				r.Bad(rule, key, c.Pos(), "the error of a transport read is discarded")
+				continue
+			}
+			c14ReadSite(r, rule, fn, c, e, key, isEOFZero)
+		}
+	}
 }
